@@ -76,6 +76,8 @@ func e2eUniverse(arch string) []*synthrepo.Pkg {
 	tzE := pkgT{ID: "SPDXRef-Package-tzdata-2024a-r1", Name: "tzdata", Version: "2024a-r1", Sums: [][2]string{{"SHA256", "0a0b"}}}
 	tzSrc := pkgT{ID: "SPDXRef-Package-tzdata-upstream", Name: "tzdata", Version: "2024a"} // same name, NOT described, listed first
 	bazOrigin := pkgT{ID: "SPDXRef-Package-baz-3.1-r0", Name: "baz", Version: "3.1-r0"}
+	mit, bsd := [2]string{"LicenseRef-MIT-foo", "Permission is hereby granted, free of charge"}, [2]string{"LicenseRef-BSD-3", "Redistribution and use in source and binary forms"}
+	own := [2]string{"LicenseRef-libx-custom", "do \"what\" you like\nbut keep this notice"}
 	mk := func(p *synthrepo.Pkg) *synthrepo.Pkg {
 		if p.Arch == "" { // "noarch" and foreign-architecture packages keep theirs; they live in this architecture's directory all the same
 			p.Arch = arch
@@ -91,14 +93,15 @@ func e2eUniverse(arch string) []*synthrepo.Pkg {
 			e2eReg("etc/os-release", "ID=verif\nNAME=\"Verif Linux\"\nPRETTY_NAME=\"Verif Linux (e2e)\"\nVERSION_ID=20230201\n")}}),
 		mk(&synthrepo.Pkg{Name: "musl", Version: "1.2.4_git20230717-r1"}),
 		mk(&synthrepo.Pkg{Name: "lib+x", Version: "2.0_rc1-r0", Origin: "libx", Files: append(append([]synthrepo.File{}, sbomDirs...),
-			sbomFile("lib+x-2.0_rc1.spdx.json", &docT{Pkgs: []pkgT{us}, Desc: []string{us.ID}}))}),
+			sbomFile("lib+x-2.0_rc1.spdx.json", &docT{Pkgs: []pkgT{us}, Desc: []string{us.ID}, Lics: [][2]string{own}}))}),
 		mk(&synthrepo.Pkg{Name: "py3-typing_extensions", Version: "4.9.0_p20231125-r2", Origin: "py3-typing-extensions"}),
 		mk(&synthrepo.Pkg{Name: "foo", Version: "1.0-r0", Origin: "foo", Deps: []string{"musl"}, Files: append(append([]synthrepo.File{}, sbomDirs...),
 			sbomFile("foo-1.0-r0.spdx.json", &docT{Pkgs: []pkgT{fooE, src}, Desc: []string{fooE.ID},
-				Rels: []relT{{"SPDXRef-DOCUMENT", "DESCRIBES", fooE.ID}, {fooE.ID, "GENERATED_FROM", src.ID}, {fooE.ID, "CONTAINS", "SPDXRef-File-usr-bin-foo"}}}))}),
+				Rels: []relT{{"SPDXRef-DOCUMENT", "DESCRIBES", fooE.ID}, {fooE.ID, "GENERATED_FROM", src.ID}, {fooE.ID, "CONTAINS", "SPDXRef-File-usr-bin-foo"}},
+				Lics: [][2]string{mit}}))}),
 		mk(&synthrepo.Pkg{Name: "foo-doc", Version: "1.0-r0", Origin: "foo", Files: append(append([]synthrepo.File{}, sbomDirs...),
 			sbomFile("foo-doc-1.0.spdx.json", &docT{Pkgs: []pkgT{fooDocE, src, fooE}, Desc: []string{fooDocE.ID},
-				Rels: []relT{{fooDocE.ID, "GENERATED_FROM", src.ID}, {fooDocE.ID, "DEPENDS_ON", fooE.ID}}}))}),
+				Rels: []relT{{fooDocE.ID, "GENERATED_FROM", src.ID}, {fooDocE.ID, "DEPENDS_ON", fooE.ID}}, Lics: [][2]string{bsd, mit}}))}),
 		mk(&synthrepo.Pkg{Name: "bar", Version: "2.0-r1", Files: append(append([]synthrepo.File{}, sbomDirs...),
 			sbomFile("bar.spdx.json", &docT{Pkgs: []pkgT{c2, c1, barE}, Desc: []string{barE.ID},
 				Rels: []relT{{c1.ID, "DEPENDS_ON", c2.ID}, {barE.ID, "DEPENDS_ON", c1.ID}, {c2.ID, "DEPENDS_ON", barE.ID}, {barE.ID, "CONTAINS", "SPDXRef-File-x"}}}))}),
@@ -119,7 +122,7 @@ func e2eUniverse(arch string) []*synthrepo.Pkg {
 		// a subpackage whose SBOM, found through the <name>.spdx.json fallback, describes its differently named origin package only
 		mk(&synthrepo.Pkg{Name: "libbaz", Version: "3.1-r0", Origin: "baz", Files: append(append([]synthrepo.File{}, sbomDirs...),
 			sbomFile("libbaz.spdx.json", &docT{Pkgs: []pkgT{bazOrigin, src}, Desc: []string{bazOrigin.ID},
-				Rels: []relT{{bazOrigin.ID, "GENERATED_FROM", src.ID}}}))}),
+				Rels: []relT{{bazOrigin.ID, "GENERATED_FROM", src.ID}}, Lics: [][2]string{bsd}}))}),
 	}
 }
 
@@ -523,7 +526,11 @@ func e2eStage(out string, seed uint64, tier string) error {
 					foreign++
 				}
 			}
-			w.Add(gal.Case{Term: fmt.Sprintf("(EImg %s %s)", galBuilt(im.In), galObs(im.Obs)),
+			var lics [][2]string
+			if im.Obs.Kind == 0 {
+				lics = im.Obs.Doc.Lics
+			}
+			w.Add(gal.Case{Term: fmt.Sprintf("(EImg %s %s %s %s)", galBuilt(im.In), galLfs(im.In), galObs(im.Obs), galLics(lics)),
 				Class: class, Desc: map[string]any{"world": wd, "image": im}})
 		}
 		// the images map of GenerateIndexSBOM, in the order of the index manifest; the model sorts it
